@@ -312,6 +312,17 @@ def execute(case, sched=None):
                     lazy("to_zarr lazy", lambda: cubed.to_zarr(a0 + 0 if a0.dtype.kind in "iuf" else a0, tgt, path="lazy/a", compute=False))
                     lazy("store lazy", lambda: cubed.store([arrays[-1]], [t2], compute=False))
                     lazy("blocks", lambda: a0.blocks[(0,) * a0.ndim])
+            # ---- a storage-backed array-like that is not a zarr.Array (h5py / netCDF variable, wrapper ...) ----------
+            src.sh.tracing = False
+            try:
+                zsrc = zarr.create_array(store=src, name="lazy_like", shape=(6, 4), dtype="float64", chunks=(2, 4))
+                zsrc[...] = np.arange(24.0).reshape(6, 4)
+            finally:
+                src.sh.tracing = True
+            ll = lazy("from_array(storage-backed array-like)", lambda: cubed.from_array(_LazyLike(zsrc), chunks=(3, 2), spec=spec))
+            if ll is not None:
+                lazy("plan of from_array(storage-backed array-like)", lambda: cubed.plan(ll + 1.0))
+                counters["lazy_like_sources"] = 1
             # ---- eager entry points: execution must be observed -------------------------
             e_arr = xp.asarray(np.arange(6.0).reshape(2, 3), chunks=(1, 2), spec=spec) + 1.0
             scalar = xp.sum(xp.asarray(np.array([1, 2, 3]), chunks=2, spec=spec))
@@ -335,6 +346,23 @@ def execute(case, sched=None):
                 sig=sig_of(case["prog"], case["callables"], case["eager"], dg),
                 nontrivial=lazy_ok >= 3 and eager_ok >= 1, counters=counters, vtime=sim.now,
                 tape=list(tape.record), outcome=dict(lazy_ok=lazy_ok, eager_ok=eager_ok))
+
+
+class _LazyLike:
+    """Array-like over stored data without __array_function__: from_array must not load it while building."""
+
+    def __init__(self, z):
+        self._z = z
+        self.shape, self.dtype, self.ndim = z.shape, z.dtype, z.ndim
+
+    def __getitem__(self, key):
+        return self._z[key]
+
+    def __array__(self, dtype=None, copy=None):
+        return np.asarray(self._z[...], dtype=dtype)
+
+    def __len__(self):
+        return self.shape[0]
 
 
 def simstore_target(sim, name):
